@@ -81,7 +81,17 @@ func (p *poller) addConn(c *Conn) error {
 		_ = c.closeWithError(err)
 		return err
 	}
+	c.mux.Lock()
+	if c.closed {
+		// Closed before it was added (a conn handed to AddConn is visible
+		// to others, e.g. nbhttp's closeAllConns): the open callback would
+		// take a wgConn count that no close callback gives back, and the
+		// fd may already belong to another conn.
+		c.mux.Unlock()
+		return net.ErrClosed
+	}
 	c.p = p
+	c.mux.Unlock()
 	if c.typ != ConnTypeUDPServer {
 		p.g.onOpen(c)
 	} else {
